@@ -152,11 +152,19 @@ func c19Stmt(r *Rng, c int, ro bool, scoped bool) Stmt {
 func genC19(seed uint64, i int, tier string) *Scenario {
 	r := NewRng(seed)
 	n := pick(r, []int{2, 3, 4, 8, 16})
-	topo := pick(r, []string{TopoPrivate, TopoSharedRO, TopoSharedRW, TopoSharedRW})
+	topo := pick(r, []string{TopoPrivate, TopoSharedRO, TopoSharedRW, TopoSharedRW, TopoContended})
 	sc := &Scenario{Topology: topo, Cfg: Config{Batch: pickBatch(r), Cache: r.Bool(), Alias: r.Chance(0.3), Lazy: r.Chance(0.3), Bind: r.Bool()}}
 	for c := 0; c < n; c++ {
 		sc.Init = append(sc.Init, c19Store(r, clientPrefix(c), r.Range(3, 14))...)
 	}
+	if topo == TopoContended {
+		for _, hk := range hotKeys {
+			if r.Bool() {
+				sc.Init = append(sc.Init, KV{hk, "init-" + hk})
+			}
+		}
+	}
+	sc.OneStorage = r.Bool()
 	nst := pick(r, []int{6, 8, 12, 20, 30})
 	if n >= 8 && nst > 12 {
 		nst = 12
@@ -166,7 +174,7 @@ func genC19(seed uint64, i int, tier string) *Scenario {
 	// shared read-write topology, where an unscoped read would legitimately see
 	// other clients' writes
 	var common []Stmt
-	if topo != TopoSharedRW {
+	if topo != TopoSharedRW && topo != TopoContended {
 		g := newGen(r, StoreMixed)
 		for k := 0; k < 4; k++ {
 			common = append(common, Stmt{Text: g.Select(r.Bool()).Render(false), Mode: genMode(r)})
@@ -187,6 +195,10 @@ func genC19(seed uint64, i int, tier string) *Scenario {
 				cl.Stmts = append(cl.Stmts, st)
 				continue
 			}
+			if topo == TopoContended {
+				cl.Stmts = append(cl.Stmts, c19ContendedStmt(r, c, s))
+				continue
+			}
 			cl.Stmts = append(cl.Stmts, c19Stmt(r, c, topo == TopoSharedRO, topo == TopoSharedRW))
 		}
 		total += nst
@@ -194,7 +206,7 @@ func genC19(seed uint64, i int, tier string) *Scenario {
 	}
 	// storage faults in some scenarios: error paths run concurrently too, and state
 	// left behind by a failed call must not leak into another client's statements
-	if r.Chance(0.5) {
+	if r.Chance(0.5) && topo != TopoContended {
 		sc.CFaults = make([][]Fault, n)
 		for c := 0; c < n; c++ {
 			for k := r.Intn(4); k > 0; k-- {
@@ -216,9 +228,9 @@ func genC19(seed uint64, i int, tier string) *Scenario {
 		sc.HookPerMil = pick(r, []int{5, 30, 150, 500})
 	}
 	// per-client schedules: after client i's k-th storage call, who runs next
-	per := nst * 40
-	if per > 4000 {
-		per = 4000
+	per := nst * 80 // two yields per storage call: on entry and on return
+	if per > 6000 {
+		per = 6000
 	}
 	cs := make([][]int, n)
 	kind := r.Intn(10)
@@ -266,6 +278,7 @@ type multiRes struct {
 	steps                    int
 	polls                    int
 	faults                   int
+	stamps                   [][][2]int64 // per client, per statement: logical time at invoke and at return
 	hookYields, hookSwitches int
 	perSite                  [len(allHookSites)]int32
 }
@@ -301,6 +314,13 @@ func runClients(sc *Scenario, concurrent bool) *multiRes {
 		}
 		handles[c] = NewHandle(cores[c], c, cf, sc.Cfg.Lazy, fmt.Sprintf("c%d", c))
 		handles[c].yield = schedYield
+		handles[c].yieldAfter = true
+	}
+	if sc.OneStorage && sc.Topology != TopoPrivate {
+		front := &frontStorage{hs: handles}
+		for c := 0; c < n; c++ {
+			handles[c].front = front
+		}
 	}
 	ids := make([]int32, n)
 	cs32 := make([][]int32, n)
@@ -314,7 +334,7 @@ func runClients(sc *Scenario, concurrent bool) *multiRes {
 		}
 	}
 	trace := make([]int32, 70000)
-	out := &multiRes{res: make([][]StmtRes, n)}
+	out := &multiRes{res: make([][]StmtRes, n), stamps: make([][][2]int64, n)}
 	cfg := sc.Cfg
 	if !concurrent {
 		schedSetHooks(nil, 0, 0) // solo: no switches anywhere
@@ -326,10 +346,14 @@ func runClients(sc *Scenario, concurrent bool) *multiRes {
 	runUnderSchedulerX(n, nil, trace, 0, func() { schedSetPerClient(ids, cs32) }, func(c int) {
 		stmts := sc.Clients[c].Stmts
 		rs := make([]StmtRes, 0, len(stmts))
+		iv := make([][2]int64, 0, len(stmts))
 		for i, st := range stmts {
+			t0 := schedTick()
 			rs = append(rs, execStmt(handles[c], i, st, cfg))
+			iv = append(iv, [2]int64{t0, schedTick()})
 		}
 		out.res[c] = rs
+		out.stamps[c] = iv
 	})
 	y, sw, nt := schedCounters()
 	out.yields, out.switches = y, sw
@@ -441,6 +465,9 @@ func runC19(sc *Scenario, st *Stats) []Violation {
 		st.Seen(fmt.Sprintf("%x", conc.traceH))
 	}
 	reps := newRaceReports()
+	if sc.Topology == TopoContended {
+		return judgeContended(sc, st, conc, reps)
+	}
 	solo := runClients(sc, false)
 	st.Evaluations++
 	st.Steps += solo.steps
@@ -652,4 +679,56 @@ func shrinkC19(sc *Scenario, try func(*Scenario) bool) {
 func cloneScenarioLight(sc *Scenario) *Scenario {
 	c := *sc
 	return &c
+}
+
+// judgeContended: linearizability of the hot-key history + detector reports.
+func judgeContended(sc *Scenario, st *Stats, conc *multiRes, reps []string) []Violation {
+	var vs []Violation
+	d := conc.traceH
+	for c := range conc.res {
+		for i := range conc.res[c] {
+			r := &conc.res[c][i]
+			d = d*1099511628211 ^ fnv64(r.BuildErr+"|"+r.Err+"|"+fmt.Sprint(len(r.Rows), conc.stamps[c][i]))
+			for _, row := range r.Rows {
+				d = d*1099511628211 ^ fnv64(rowStr(row))
+			}
+		}
+	}
+	st.curDigest = d
+	evs, usable := linHistory(sc, conc.res, conc.stamps)
+	if !usable {
+		st.Inc("contended_history_unusable")
+	} else {
+		init := map[string]string{}
+		for _, kv := range sc.Init {
+			init[kv.K] = kv.V
+		}
+		st.Add("linearizability_ops_checked", len(evs))
+		key, detail, unknown := checkLinearizable(evs, init)
+		st.Add("linearizability_inconclusive_keys", unknown)
+		if key != "" {
+			vs = append(vs, Violation{Prop: "C19", Kind: "not-linearizable",
+				Detail: fmt.Sprintf("the point reads and writes of key %q by %d concurrent clients (storage calls are atomic) cannot be explained by any order consistent with which statements had returned before which were invoked; history of the key:%s", key, len(sc.Clients), detail),
+				Sig:    "topology=contended"})
+		}
+	}
+	st.Sample(map[string]any{"clients": len(sc.Clients), "topology": sc.Topology, "hot_key_operations": len(evs),
+		"yields": conc.yields, "context_switches": conc.switches, "client0_first_statements": firstTexts(sc.Clients[0].Stmts, 3)}, 4)
+	for _, rep := range reps {
+		frames, honly := raceFrames(rep)
+		if honly {
+			st.Inc("race_reports_harness_only")
+			fmt.Fprintln(os.Stderr, "HARNESS-RACE:", oneLine(rep, 1500))
+			continue
+		}
+		st.Inc("race_reports_kvql")
+		top := frames
+		if len(top) > 6 {
+			top = top[:6]
+		}
+		vs = append(vs, Violation{Prop: "C19", Kind: "data-race",
+			Detail: "race detector report involving library code: " + strings.Join(top, " <- ") + " | " + oneLine(rep, 900),
+			Sig:    "race " + strings.Join(sortedCopy(top), ",")})
+	}
+	return vs
 }
